@@ -95,6 +95,11 @@ class Call:
     #                     predicted by the harness's own table (m1.BAD_PD); kinds 1, 2, 4, 5: 1 = the exception is a direct subclass
     #                     of BaseException; else 0
     fault_pd: object = None  # kinds 6, 7: the value assigned to `Parallel.pre_dispatch` for this call
+    # the configuration of THIS call (lean/JoblibModel/ParallelReconf.lean): (nj, bs_auto, bs, pd_mode, pd, pd_expr, timeout),
+    # assigned through the public surface immediately before the call: `p.n_jobs` + the backend's `effective_n_jobs()` /
+    # `configure()` answer, `p.batch_size`, `p.pre_dispatch`, `p.timeout`.  () = the scenario's configuration.  Either every
+    # call of a scenario has one or none has.
+    reconf: tuple = ()
 
 
 @dataclass
@@ -160,12 +165,29 @@ class Scenario:
         t.append(len(self.sched))
         for e in self.sched:
             t += [len(e), *e]
-        if self.has_faults() or not self.start_guard:
+        if self.has_faults() or not self.start_guard or self.has_reconf():
             # optional tail (scenarios without start-up faults keep their old encoding)
             t += [int(self.start_guard), self.enter_fault, self.enter_cls if self.enter_fault else 0]
             for c in self.calls:
                 t += [c.fault, c.fault_cls]
+        if self.has_reconf():
+            # second optional section: the configuration of every call
+            for c in self.calls:
+                nj, auto, bs, pd_mode, pd, _expr, to = c.reconf
+                t += [nj, int(auto), len(bs), *bs, pd_mode, pd, to]
         return t
+
+    def has_reconf(self):
+        return any(c.reconf for c in self.calls)
+
+    def for_call(self, cno):
+        """The scenario with the configuration in force during call `cno` (oracles)."""
+        c = self.calls[cno]
+        if not c.reconf:
+            return self
+        import dataclasses
+        nj, auto, bs, pd_mode, pd, expr, to = c.reconf
+        return dataclasses.replace(self, nj=nj, bs_auto=bool(auto), bs=tuple(bs), pd_mode=pd_mode, pd=pd, pd_expr=expr, timeout=to)
 
     def has_faults(self):
         return bool(self.enter_fault or any(c.fault for c in self.calls))
@@ -178,7 +200,8 @@ class Scenario:
                     pd_expr=self.pd_expr, ra=self.ra, timeout=self.timeout, managed=self.managed,
                     abort_drops=self.abort_drops,
                     calls=[dict(n=c.n, fail=list(c.fail), iterfail=c.iterfail, cons=list(c.cons),
-                                **(dict(fault=c.fault, fault_cls=c.fault_cls, fault_pd=c.fault_pd) if c.fault else {}))
+                                **(dict(fault=c.fault, fault_cls=c.fault_cls, fault_pd=c.fault_pd) if c.fault else {}),
+                                **(dict(reconf=[c.reconf[0], bool(c.reconf[1]), list(c.reconf[2]), *c.reconf[3:]]) if c.reconf else {}))
                            for c in self.calls],
                     start_guard=self.start_guard, enter_fault=self.enter_fault, enter_cls=self.enter_cls,
                     sched=[list(e) for e in self.sched], instr=[list(e) for e in self.instr],
@@ -193,7 +216,9 @@ class Scenario:
                         pd_expr=d.get("pd_expr", ""), ra=d["ra"], timeout=d["timeout"], managed=d["managed"],
                         abort_drops=d["abort_drops"],
                         calls=tuple(Call(c["n"], tuple(c["fail"]), c["iterfail"], tuple(c["cons"]), int(c.get("fault", 0)),
-                                         int(c.get("fault_cls", 0)), c.get("fault_pd")) for c in d["calls"]),
+                                         int(c.get("fault_cls", 0)), c.get("fault_pd"),
+                                         (lambda r: (r[0], bool(r[1]), tuple(r[2]), *r[3:]) if r else ())(c.get("reconf")))
+                                    for c in d["calls"]),
                         start_guard=bool(d.get("start_guard", True)), enter_fault=int(d.get("enter_fault", 0)), enter_cls=int(d.get("enter_cls", 0)),
                         sched=tuple(tuple(e) for e in d["sched"]), instr=tuple(tuple(e) for e in d.get("instr", ())),
                         midpull_close=tuple(d.get("midpull_close", ())), probe_wait=bool(d.get("probe_wait", False)), verbose=int(d.get("verbose", 0)),
@@ -329,6 +354,7 @@ class Run:
         self.cur_fault = 0     # start-up fault of the call being made (0 outside `par(...)`)
         self.cur_cls = 0
         self.entering = False  # inside `par.__enter__()`
+        self.cur_nj, self.cur_bs, self.cur_timeout = sc.nj, sc.bs, sc.timeout  # configuration in force (per-call `reconf`)
         self.n_submit = 0      # submits so far (index of the `insub` entries)
         self.insub = dict(sc.insub)
         self.insub_fired = []
@@ -354,7 +380,7 @@ class Run:
                 self.deliver(0)
             else:
                 self.idle += 1
-                if self.idle > self.HANG_IDLE + max(self.sc.timeout, 0):
+                if self.idle > self.HANG_IDLE + max(self.cur_timeout, 0):
                     if self.hang_at is None:
                         self.hang_at = len(self.log)
                     raise HangDetected()
@@ -406,7 +432,7 @@ class Run:
             supports_sharedmem = True
 
             def effective_n_jobs(self, n_jobs):
-                return 0 if run.cur_fault == 3 else sc.nj
+                return 0 if run.cur_fault == 3 else run.cur_nj
 
             def configure(self, n_jobs=1, parallel=None, **kw):
                 self.parallel = parallel
@@ -417,7 +443,7 @@ class Run:
                     raise _boom(2, run.cur_cls)
                 if run.entering and sc.enter_fault == 2:
                     raise _boom(2, sc.enter_cls)
-                return 0 if run.cur_fault == 3 else sc.nj
+                return 0 if run.cur_fault == 3 else run.cur_nj
 
             def start_call(self):
                 run.ev("start_call")
@@ -432,7 +458,7 @@ class Run:
                 run.ev("terminate")
 
             def compute_batch_size(self):
-                v = sc.bs[min(run.bs_i, len(sc.bs) - 1)]
+                v = run.cur_bs[min(run.bs_i, len(run.cur_bs) - 1)]
                 run.bs_i += 1
                 run.reenter_here("bs")
                 run.hook("bs")
@@ -671,6 +697,14 @@ class Run:
                     inp = _faulty_input(src(cno, base, call), call.n, call.fault, call.fault_cls, sc.sized)
                 else:
                     inp = _Sized(src(cno, base, call), call.n) if sc.sized else src(cno, base, call)
+                if call.reconf:
+                    # the object is reconfigured through its public surface; the backend answers with the new worker count
+                    nj, auto, bs, pd_mode, pd, expr, to = call.reconf
+                    self.cur_nj, self.cur_bs, self.cur_timeout = nj, tuple(bs), to
+                    par.n_jobs = nj
+                    par.batch_size = "auto" if auto else bs[0]
+                    par.pre_dispatch = "all" if pd_mode == 1 else (expr if pd_mode == 2 else pd)
+                    par.timeout = None if to < 0 else to
                 if call.fault in (6, 7):
                     par.pre_dispatch = call.fault_pd  # the public attribute `__call__` reads
                 self.cur_fault, self.cur_cls = call.fault, call.fault_cls
